@@ -314,6 +314,81 @@ where
     out
 }
 
+// ------------------------------------------------------------------------------------------ swap
+/// Two buffers holding the same S5 value; accessors of the same type are swapped between the two exclusive
+/// wrappers at a chosen point; reports where the framework notices (panics), if at all.
+/// case: scenario, when (0 = swap first, 1 = swap after a resize in both), then (0 = drop, 1 = resize sibling d,
+/// 2 = access the element again, 3 = resize the swapped container itself)
+/// observation: [1, k] = panic at event k (1 = the `then` op, 2 = drop of wrapper 1) ; [0] = nothing noticed
+fn swap(c: &mut Cur) -> Vec<i128> {
+    use vh::shapes::{S5ExclusiveExt as _, S5Owned, S5};
+    let scenario = c.next().unwrap();
+    let when = c.next().unwrap();
+    let then = c.next().unwrap();
+    let owned = || S5Owned {
+        a: vec![1, 2, 3],
+        b: vec![vec![4u8, 5], vec![6], vec![]],
+        c: vec![vec![vec![7u8]], vec![]],
+        d: vec![8, 9],
+    };
+    let mk = |o: S5Owned| {
+        let size = <S5 as star_frame::unsize::FromOwned>::byte_size(&o);
+        let mut b = vec![0u8; size];
+        let mut sl: &mut [u8] = &mut b[..];
+        <S5 as star_frame::unsize::FromOwned>::from_owned(o, &mut sl).unwrap();
+        b
+    };
+    let b1 = GuardBuf::new(&mk(owned()), Flush::Right);
+    let b2 = GuardBuf::new(&mk(owned()), Flush::Left);
+    let mut w1: ExclusiveWrapperTop<'_, S5, GuardBuf> = ExclusiveWrapper::new(&b1).unwrap();
+    let mut w2: ExclusiveWrapperTop<'_, S5, GuardBuf> = ExclusiveWrapper::new(&b2).unwrap();
+    if when == 1 {
+        w1.a().push(42).unwrap();
+        w2.d().push(43).unwrap();
+    }
+    match scenario {
+        0 => std::mem::swap(&mut w1.a, &mut w2.a),
+        1 => std::mem::swap(&mut w1.b, &mut w2.b),
+        2 => std::mem::swap(&mut w1.d, &mut w2.d),
+        3 => {
+            let e1 = w1.b.index_mut(1).unwrap();
+            let e2 = w2.b.index_mut(1).unwrap();
+            std::mem::swap(e1, e2);
+        }
+        4 => std::mem::swap(&mut w1.c, &mut w2.c),
+        _ => {}
+    }
+    let mut out = vec![];
+    let r = guarded(|| match then {
+        1 => w1.d().push(7).map(|_| ()),
+        2 => w1.b.index_mut(1).map(|_| ()),
+        3 => match scenario {
+            0 => w1.a().push(1),
+            1 | 3 => w1.b().push([1u8, 1, 1]).map(|_| ()),
+            2 => w1.d().push(1),
+            _ => w1.c().clear(),
+        },
+        _ => Ok(()),
+    });
+    // the observation is "noticed no later than the end of the borrow" (the stage - at the operation or at the
+    // drop - depends on whether the operation itself goes through the foreign pointer, which a one-buffer model
+    // cannot mirror); VERIF_SWAP_STAGE=1 prints the stage as well
+    let stage = std::env::var("VERIF_SWAP_STAGE").is_ok();
+    if r.is_err() {
+        out.push(1);
+        if stage { out.push(1); }
+        std::mem::forget(w1);
+        std::mem::forget(w2);
+        return out;
+    }
+    match guarded(move || drop(w1)) {
+        Ok(()) => out.push(0),
+        Err(()) => { out.push(1); if stage { out.push(2); } }
+    }
+    std::mem::forget(w2);
+    out
+}
+
 fn main() {
     quiet_panics();
     let args: Vec<String> = std::env::args().collect();
@@ -328,6 +403,24 @@ fn main() {
         return;
     }
     let cases = read_cases(&args[1]);
+    if mode == "swap" {
+        run_forked(&cases, |ints| swap(&mut Cur::new(ints)));
+        return;
+    }
+    if mode == "ops" && cases.iter().any(|(_, c)| c.first() == Some(&100)) {
+        // accessor-swap scenarios ride along with the operation histories (shape index 100)
+        run_forked(&cases, |ints| {
+            if ints.first() == Some(&100) { return swap(&mut Cur::new(&ints[1..])); }
+            let mut c = Cur::new(ints);
+            let shape = c.next().unwrap();
+            let mut d = vec![];
+            { macro_rules! m { ($t:ty) => { <$t as Node>::desc(&mut d) }; } vh::with_shape!(shape, m); }
+            match c.take(d.len()) { Some(x) if x == &d[..] => {} _ => return vec![-5] }
+            macro_rules! m2 { ($t:ty) => { ops::<$t>(&mut c) }; }
+            vh::with_shape!(shape, m2)
+        });
+        return;
+    }
     let f = |ints: &[i128]| -> Vec<i128> {
         let mut c = Cur::new(ints);
         let shape = c.next().unwrap();
